@@ -69,8 +69,10 @@ func VerifC09Requests() {
 			c.do(r)
 		}
 	}
-	if verifnd.Tier() == 1 {
-		// a third party joins meanwhile
+	if verifnd.Tier() == 1 && verifnd.Bool() {
+		// a third party joins meanwhile: three threads with one preemption (with two, this harness ran for more
+		// than two hours without finishing); the two-thread block below runs with two in the thorough tier
+		verifnd.Preempt(1)
 		p := s.w.newConn()
 		verifnd.Par(run(s.a0, r0), run(s.a1, r1), func() { p.join(s.a2.sid, 9) })
 	} else {
